@@ -71,6 +71,9 @@ type constructorNode struct {
 	// the number of decorators that were on the stack when it started.
 	building   bool
 	buildingAt int
+
+	// running is set while the constructor function itself is executing.
+	running bool
 }
 
 type constructorOptions struct {
@@ -158,14 +161,16 @@ func (n *constructorNode) Call(c containerStore) (err error) {
 	}
 
 	// Resolution came back to this constructor while it is being built.
-	// That is legitimate only if a decorator was entered in between (a
-	// decorator on the stack is skipped, so the inner resolution takes a
-	// different path). Otherwise this is a dependency cycle that no single
+	// While its arguments are built that is legitimate only if a decorator
+	// was entered in between (a decorator on the stack is skipped, so the
+	// inner resolution takes a different path); while the constructor
+	// function itself runs (its body asked the container for its own
+	// result) it never is. Otherwise this is a dependency cycle that no single
 	// scope's graph showed - e.g. exported constructors of sibling scopes
 	// depending on each other through private dependencies - and building
 	// would recurse until the stack overflows.
 	root := n.s.rootScope()
-	if n.building && n.buildingAt == root.decoratorsOnStack {
+	if n.running || (n.building && n.buildingAt == root.decoratorsOnStack) {
 		return errCycleDetected{
 			Path:  []cycleErrPathEntry{{Key: key{t: n.ctype}, Func: n.location}},
 			scope: n.s,
@@ -213,6 +218,8 @@ func (n *constructorNode) Call(c containerStore) (err error) {
 	}
 
 	receiver := newStagingContainerWriter()
+	n.running = true
+	defer func() { n.running = false }()
 	results := c.invoker()(reflect.ValueOf(n.ctor), args)
 	if err = n.resultList.ExtractList(receiver, false /* decorating */, results); err != nil {
 		return errConstructorFailed{Func: n.location, Reason: err}
